@@ -71,30 +71,27 @@ func (f *otherFile) Pos(off int) parsley.Pos        { return parsley.Pos(f.offse
 func (f *otherFile) Len() int                       { return f.length }
 func (f *otherFile) SetOffset(o int)                { f.offset = o }
 
-// placement is decided once per harness run: 0 = the file alone (base offset
-// 1), 1 = after a file of symbolic length (symbolic base offset).
-var placement = -1
-var placementRun = -1
-var otherLen int
+// other, when set, is placed before the parsed file in every file set built
+// by newEnv. usePlacement decides it at the start of a harness run: the file
+// alone (base offset 1), or after a file of symbolic length (symbolic base
+// offset). Harnesses that do not call it always parse the file alone.
+var other *otherFile
+
+func usePlacement() {
+	other = nil
+	if rt.Param("placed", 0) == 1 && rt.Choose("placement", 2) == 1 {
+		other = &otherFile{length: rt.IntRange("otherlen", 0, 1<<40)}
+		rt.Cover("parsed file at a symbolic base offset")
+	}
+}
 
 func newEnv(in []byte) *env {
 	cp := make([]byte, len(in))
 	copy(cp, in)
 	f := text.NewFile("f", cp)
-	if placement < 0 || placementRun != rt.RunID() {
-		placementRun = rt.RunID()
-		placement = 0
-		if rt.Param("placed", 0) == 1 {
-			placement = rt.Choose("placement", 2)
-			if placement == 1 {
-				otherLen = rt.IntRange("otherlen", 0, 1<<40)
-				rt.Cover("parsed file at a symbolic base offset")
-			}
-		}
-	}
 	var fs *parsley.FileSet
-	if placement == 1 {
-		fs = parsley.NewFileSet(&otherFile{length: otherLen}, f)
+	if other != nil {
+		fs = parsley.NewFileSet(&otherFile{length: other.length}, f)
 	} else {
 		fs = parsley.NewFileSet(f)
 	}
@@ -128,6 +125,7 @@ func showInput(in []byte) string {
 // C01_Derivations: the alternatives a memoized nonterminal returns at a
 // position are exactly the grammar's derivations from that position.
 func C01_Derivations() {
+	usePlacement()
 	g := pickGrammar(nil)
 	in := inputFor(g, rt.Param("N", 3))
 	rt.Note(g.Name)
@@ -252,6 +250,7 @@ func (p *actProbe) Parse(ctx *parsley.Context, lrc data.IntMap, pos parsley.Pos)
 // C02_BoundedReentry: no memoized parser is active more than remaining+2
 // times at one position; parsing terminates.
 func C02_BoundedReentry() {
+	usePlacement()
 	g := pickGrammar(func(g *Grammar) bool { return g.Recursive })
 	in := inputFor(g, rt.Param("N", 3))
 	rt.Note(g.Name)
@@ -302,6 +301,7 @@ func (evalAll) Eval(userCtx interface{}, node parsley.NonTerminalNode) (interfac
 // C04_NodeXorError: Parse returns exactly one of node / error; Evaluate never
 // panics; with a Sentence root success means the whole input.
 func C04_NodeXorError() {
+	usePlacement()
 	g := pickGrammar(nil)
 	in := inputFor(g, rt.Param("N", 3))
 	named := rt.Choose("named", 2) == 1
